@@ -188,3 +188,6 @@ def run(chk, repo):
     from rules.shared import optname
     chk.clauses.append('C17.f (shared R-THREAD) an option value bound to a name that is itself a CLI option carries that very option')
     optname(chk, repo, 'C17.f', ['cli.parse_circexplorer'], floor=0)
+    from rules.shared import memo_params
+    chk.clauses.append('C17.g exon / intron index look-ups of the annotation are not served from a cache keyed by less than the transcript they were computed for')
+    memo_params(chk, repo, 'C17.g', ['gtf.GenomicAnnotation:GenomicAnnotation.', 'gtf.GenomicAnnotationOnDisk:GenomicAnnotationOnDisk.', 'gtf.TranscriptAnnotationModel:'], floor=0)
